@@ -110,19 +110,54 @@ pub fn judge(c: &Case, site: &Site, diags: &[Diag]) -> Verdict {
     }
 }
 
-/// Is there an ecall between the planted line and the closest label above it?
+/// Does every path from the entry of the enclosing function (or of the program) to the planted
+/// instruction pass through an ecall? (Computed on the harness AST, independent of the tool.)
 fn behind_ecall(c: &Case, site: &Site) -> bool {
     let Some(first) = site.lines.first() else {
         return false;
     };
-    for l in c.g.prog.lines[..*first].iter().rev() {
-        match l {
-            Line::Label(_) => return false,
-            Line::Ins(Ins::Ecall) => return true,
-            _ => {}
+    let flat = c.g.prog.flatten();
+    let Some(target) = flat.line_of.iter().position(|l| l == first) else {
+        return false;
+    };
+    // entry: the closest call target at or above the site, else the start of the program
+    let called: std::collections::HashSet<&str> =
+        flat.ins.iter().filter_map(|i| if let Ins::Jal { rd: 1, label } = i { Some(label.as_str()) } else { None }).collect();
+    let mut entry = 0;
+    for (l, idx) in &flat.code_labels {
+        if called.contains(l.as_str()) && *idx <= target && *idx > entry {
+            entry = *idx;
         }
     }
-    false
+    let mut seen = vec![false; flat.ins.len() + 1];
+    let mut stack = vec![entry];
+    while let Some(i) = stack.pop() {
+        if i >= flat.ins.len() || seen[i] {
+            continue;
+        }
+        seen[i] = true;
+        if i == target {
+            return false; // reached without crossing an ecall
+        }
+        match &flat.ins[i] {
+            Ins::Ecall => {}
+            Ins::Branch { label, .. } => {
+                stack.push(i + 1);
+                if let Some(t) = flat.code_labels.get(label) {
+                    stack.push(*t);
+                }
+            }
+            Ins::Jal { rd: 1, .. } => stack.push(i + 1),
+            Ins::Jal { label, .. } => {
+                if let Some(t) = flat.code_labels.get(label) {
+                    stack.push(*t);
+                }
+            }
+            Ins::Jalr { .. } => {}
+            _ => stack.push(i + 1),
+        }
+    }
+    true
 }
 
 fn reg_class(r: Option<Reg>) -> &'static str {
@@ -150,7 +185,7 @@ pub fn run(ctx: &Ctx) -> i32 {
     let per_class: usize = ctx.tier.pick(64, 5000);
     let prof = Profile::conforming();
     let jobs = ctx.jobs;
-    let acc = run_sharded(jobs, |shard| {
+    let acc = run_sharded(ctx, |shard| {
         let mut acc = Acc::new();
         for (ci, kind) in ALL_INJECT.iter().enumerate() {
             for k in 0..per_class {
